@@ -758,6 +758,32 @@ fn run_c10(t: &mut Tape, tier: Tier) -> RunOut {
 /// Deliver a header-signed request whose x-amz-date (or query X-Amz-Date) text is `text`, signed
 /// for instant `t_sign`, to a node whose clock reads `now`.
 fn deliver_with_date(text: &str, t_sign: i128, now: i128, carrier: Carrier, tp: &mut Tape) -> Option<(ValOut, Vec<libi::Event>)> {
+    let (wire, node, acct) = date_wire(text, t_sign, carrier, tp);
+    let req = wire.to_request().ok()?;
+    Some(libi::validate_simple(req, &node, now, &[acct], tp))
+}
+
+/// The parsed instant (ns since the Unix epoch) and the timestamp line of the string to sign, as the
+/// library sees them, observed through the `unstable` seam.
+fn lib_timestamp(wire: &Wire) -> Result<Result<(i128, String), libi::ErrInfo>, String> {
+    let req = wire.to_request().map_err(|e| format!("http: {}", e))?;
+    let (parts, body) = req.into_parts();
+    let r = catch_unwind(AssertUnwindSafe(move || {
+        let (cr, _, _) = canonical::CanonicalRequest::from_request_parts(parts, bytes::Bytes::from(body), scratchstack_aws_signature::SignatureOptions::default()).map_err(|e| libi::err_info(Box::new(e)))?;
+        let a = cr.get_authenticator(&scratchstack_aws_signature::NO_ADDITIONAL_SIGNED_HEADERS).map_err(|e| libi::err_info(Box::new(e)))?;
+        let ts = a.request_timestamp();
+        let ns = ts.timestamp() as i128 * refm::NS + ts.timestamp_subsec_nanos() as i128;
+        let sts = a.get_string_to_sign();
+        let line2 = String::from_utf8_lossy(sts.split(|c| *c == b'\n').nth(1).unwrap_or(b"")).to_string();
+        Ok((ns, line2))
+    }));
+    match r {
+        Ok(x) => Ok(x),
+        Err(p) => Err(panic_text(&p)),
+    }
+}
+
+fn date_wire(text: &str, t_sign: i128, carrier: Carrier, tp: &mut Tape) -> (Wire, Node, Account) {
     let node = fixed_node(false);
     let acct = fixed_account();
     let mut headers = vec![("host".to_string(), b"example.amazonaws.com".to_vec())];
@@ -805,13 +831,12 @@ fn deliver_with_date(text: &str, t_sign: i128, now: i128, carrier: Carrier, tp: 
         home_node: 0,
     };
     let wire = render(&m, tp, &RenderOpts {
-                mask: crate::world::NOISE_ALL,
+        mask: crate::world::NOISE_ALL,
         noise: 0,
         s3: false,
         permute_pairs: false,
     });
-    let req = wire.to_request().ok()?;
-    Some(libi::validate_simple(req, &node, now, &[acct], tp))
+    (wire, node, acct)
 }
 
 fn is_date_format_error(o: &ValOut) -> bool {
@@ -872,17 +897,10 @@ pub fn check_date_text(out: &mut RunOut, text: &str, carrier: Carrier, tp: &mut 
             } else {
                 "date_unspecified"
             });
-            // (1) signed for the reference instant, server clock = that instant: accepted, which
-            // also pins the compact UTC rendering in the string to sign and the UTC scope date
-            let r1 = deliver_with_date(text, t, t, carrier, tp);
-            // (2) the instant is exact to the nanosecond: on the lower bound it is still accepted,
-            // one nanosecond beyond it is expired
-            let r2 = deliver_with_date(text, t, t + refm::WINDOW_NS, carrier, tp);
-            let r3 = deliver_with_date(text, t, t + refm::WINDOW_NS + 1, carrier, tp);
-            let r4 = deliver_with_date(text, t, t - refm::WINDOW_NS - 1, carrier, tp);
-            let (o1, o2, o3, o4) = match (r1, r2, r3, r4) {
-                (Some(a), Some(b), Some(c), Some(d)) => (a.0, b.0, c.0, d.0),
-                _ => return,
+            // (1) accept/refuse: signed for the reference instant, server clock = that instant
+            let o1 = match deliver_with_date(text, t, t, carrier, tp) {
+                Some(a) => a.0,
+                None => return,
             };
             if is_date_format_error(&o1) {
                 if must {
@@ -897,13 +915,30 @@ pub fn check_date_text(out: &mut RunOut, text: &str, carrier: Carrier, tp: &mut 
             if refm::yyyymmdd(t) != effective.replace('-', "")[..8] {
                 out.probe("date_offset_moves_day");
             }
-            if !o1.is_ok() {
-                out.violate("C16", "instant-exact-and-compact-utc-in-string-to-sign", format!("date {:?} signed for the reference instant {} (scope date {}): {}", text, refm::compact_utc(t), refm::yyyymmdd(t), o1.short()));
+            // (2) the instant the library assigns and the timestamp line of its string to sign,
+            // observed directly (offset applied, fraction truncated to nanoseconds, compact UTC)
+            let (wire, _, _) = date_wire(text, t, carrier, tp);
+            match lib_timestamp(&wire) {
+                Ok(Ok((ns, line))) => {
+                    out.probe("instant_observed");
+                    if ns != t {
+                        out.violate("C16", "instant-is-the-reference-instant", format!("date {:?} ({:?} carrier): library instant {} ns, reference instant {} ns (difference {} ns)", text, carrier, ns, t, ns - t));
+                    }
+                    if line != refm::compact_utc(t) {
+                        out.violate("C16", "compact-utc-in-string-to-sign", format!("date {:?}: timestamp line of the string to sign is {:?}, reference {:?}", text, line, refm::compact_utc(t)));
+                    }
+                }
+                Ok(Err(e)) => {
+                    if must {
+                        out.violate("C16", "well-formed-date-accepted", format!("date {:?} ({:?} carrier): validation got past the date but the authenticator cannot be built: {} {}", text, carrier, e.kind, e.display));
+                    }
+                }
+                Err(p) => out.violate("C08", "no-panic", format!("date {:?}: {}", text, p)),
             }
-            let expired = |o: &ValOut| o.err().map(|e| libi::classify(e).contains(&Rule::Expired)).unwrap_or(false);
-            let future = |o: &ValOut| o.err().map(|e| libi::classify(e).contains(&Rule::NotYetValid)).unwrap_or(false);
-            if !o2.is_ok() || !expired(&o3) || !future(&o4) {
-                out.violate("C16", "instant-exact-to-the-nanosecond", format!("date {:?} (reference instant {} ns): at now=t+15min {}, at +1ns {}, at now=t-15min-1ns {}", text, t, o2.short(), o3.short(), o4.short()));
+            // (3) end to end: the request signed by the reference signer for the reference instant
+            // is accepted (same UTC second in the string to sign, same UTC date in the scope)
+            if must && !o1.is_ok() {
+                out.violate("C16", "instant-exact-and-compact-utc-in-string-to-sign", format!("date {:?} signed for the reference instant {} (scope date {}): {}", text, refm::compact_utc(t), refm::yyyymmdd(t), o1.short()));
             }
         }
     }
@@ -1129,8 +1164,8 @@ pub fn registry() -> Vec<Profile> {
             id: "C16",
             title: "timestamps",
             run: run_c16,
-            required: &["date_must_accept", "date_must_reject", "date_unspecified", "date_fraction", "date_offset_moves_day"],
-            rule: "clients render their simulated clock in every admissible form (basic/extended, Z or any offset, ./, fraction of 0-12 digits) and the network corrupts the text (drop/insert/replace a character, out-of-range field, missing zone, HTTP-date); each text is delivered on either carrier four times: signed for the reference instant with the server clock at that instant, at +15 min, at +15 min +1 ns and at −15 min −1 ns, which pins the parsed instant to the nanosecond, the compact UTC line of the string to sign and the UTC scope date; distinct by (verdict class, carrier, length, form)",
+            required: &["date_must_accept", "date_must_reject", "date_unspecified", "date_fraction", "date_offset_moves_day", "instant_observed"],
+            rule: "clients render their simulated clock in every admissible form (basic/extended, Z or any offset, ./, fraction of 0-12 digits) and the network corrupts the text (drop/insert/replace a character, out-of-range field, missing zone, HTTP-date); each text is delivered on either carrier signed by the reference signer for the reference instant (accept / format-error verdict, string to sign and scope date end to end), and the instant the library assigned plus the timestamp line of its string to sign are observed at nanosecond resolution through the `unstable` seam; distinct by (verdict class, carrier, length, form)",
             quick_secs: 15,
             thorough_secs: 150,
             real: REAL_COMMON,
